@@ -201,6 +201,8 @@ pub const CONS: [&str; 30] = ["p", "t", "k", "b", "d", "ɡ", "m", "n", "ŋ", "s"
 pub const VOWS: [&str; 12] = ["a", "e", "i", "o", "u", "ə", "ɛ", "ɔ", "y", "ɯ", "ã", "æ"];
 pub const GROUPS: [char; 9] = ['C', 'O', 'S', 'P', 'F', 'L', 'N', 'G', 'V'];
 pub const TONES: [u16; 6] = [5, 51, 214, 35, 1234, 3];
+/// tone literals as written in rules: also with zeros, which the manual says are dropped (`[tone: 30]` is tone 3, `10234` is 1234)
+pub const RULE_TONES: [u16; 11] = [5, 51, 214, 35, 1234, 3, 30, 105, 50, 10234, 2040];
 
 pub fn rand_seg(r: &mut Rng) -> String { if r.chance(2, 5) { r.pick(&VOWS).to_string() } else { r.pick(&CONS).to_string() } }
 
@@ -339,7 +341,7 @@ impl<'a> RuleGen<'a> {
             match self.r.below(if syll_only { 3 } else { 5 }) {
                 0 => { let v = self.binval(); m.feats.push(("stress".into(), v)) }
                 1 => { let v = self.binval(); m.feats.push(("sec.stress".into(), v)) }
-                2 => m.tone = Some(*self.r.pick(&TONES)),
+                2 => m.tone = Some(*self.r.pick(&RULE_TONES)),
                 3 => { let v = self.binval(); m.feats.push(("long".into(), v)) }
                 _ => { let v = if self.c.alphas && self.r.chance(1, 3) { let c = 'D'; if !self.bound_alphas.iter().any(|a| a.0 == c) { self.bound_alphas.push((c, 2)); } FV::Alpha(c) } else { self.binval() }; m.feats.push(("long".into(), v)) }
             }
@@ -364,7 +366,7 @@ impl<'a> RuleGen<'a> {
             match self.r.below(4) {
                 0 => { let v = self.binval(); m.feats.push(("stress".into(), v)) }
                 1 => { let v = self.binval(); m.feats.push(("long".into(), v)) }
-                2 => m.tone = Some(*self.r.pick(&TONES)),
+                2 => m.tone = Some(*self.r.pick(&RULE_TONES)),
                 _ => { let v = self.binval(); m.feats.push(("sec.stress".into(), v)) }
             }
         }
@@ -453,7 +455,7 @@ impl<'a> RuleGen<'a> {
     /// output element for an input element (substitution)
     fn out_for(&mut self, inp: &El) -> El {
         match inp {
-            El::Syll(..) | El::Struct(..) => El::Mat(Mods { feats: vec![(if self.r.chance(1, 2) { "stress".into() } else { "sec.stress".into() }, self.binval())], tone: if self.r.chance(1, 3) { Some(*self.r.pick(&TONES)) } else { None } }, None),
+            El::Syll(..) | El::Struct(..) => El::Mat(Mods { feats: vec![(if self.r.chance(1, 2) { "stress".into() } else { "sec.stress".into() }, self.binval())], tone: if self.r.chance(1, 3) { Some(*self.r.pick(&RULE_TONES)) } else { None } }, None),
             El::SyllB => El::SyllB,
             El::Set(v) => if self.r.chance(1, 2) { El::Set(v.iter().map(|_| El::Ipa(rand_seg(self.r), None)).collect()) } else { El::Mat(self.set_mods(true), None) },
             _ => match self.r.below(4) { 0 | 1 => El::Mat(self.set_mods(true), None), 2 => El::Ipa(rand_seg(self.r), if self.r.chance(1, 6) { Some(self.set_mods(true)) } else { None }),
